@@ -10,12 +10,14 @@ import (
 	"time"
 
 	"github.com/smarthome-go/homescript/v3/homescript"
+	"github.com/smarthome-go/homescript/v3/homescript/analyzer"
 	"github.com/smarthome-go/homescript/v3/homescript/analyzer/ast"
 	"github.com/smarthome-go/homescript/v3/homescript/compiler"
 	"github.com/smarthome-go/homescript/v3/homescript/diagnostic"
-	"github.com/smarthome-go/homescript/v3/homescript/optimizer"
 	herrors "github.com/smarthome-go/homescript/v3/homescript/errors"
 	treeValue "github.com/smarthome-go/homescript/v3/homescript/interpreter/value"
+	"github.com/smarthome-go/homescript/v3/homescript/optimizer"
+	pAst "github.com/smarthome-go/homescript/v3/homescript/parser/ast"
 	hmsrt "github.com/smarthome-go/homescript/v3/homescript/runtime"
 	vmValue "github.com/smarthome-go/homescript/v3/homescript/runtime/value"
 )
@@ -105,6 +107,31 @@ type anHost struct {
 	st *hostState
 }
 
+// Two host modules that offer items of the same names (a function `tag` answering the module's name, an int `num`):
+// which one a module means is a matter of ITS import statement.
+func hostNum(m string) int64 {
+	if m == "hosta" {
+		return 1
+	}
+	return 2
+}
+
+func (h anHost) GetBuiltinImport(moduleName string, valueName string, span herrors.Span, kind pAst.IMPORT_KIND) (analyzer.BuiltinImport, bool, bool) {
+	if moduleName == "hosta" || moduleName == "hostb" {
+		if kind != pAst.IMPORT_KIND_NORMAL {
+			return analyzer.BuiltinImport{}, true, false
+		}
+		switch valueName {
+		case "tag":
+			return analyzer.BuiltinImport{Type: ast.NewFunctionType(ast.NewNormalFunctionTypeParamKind(make([]ast.FunctionTypeParam, 0)), span, ast.NewStringType(span), span)}, true, true
+		case "num":
+			return analyzer.BuiltinImport{Type: ast.NewIntType(span)}, true, true
+		}
+		return analyzer.BuiltinImport{}, true, false
+	}
+	return h.TestingAnalyzerHost.GetBuiltinImport(moduleName, valueName, span, kind)
+}
+
 func (h anHost) ResolveCodeModule(moduleName string) (string, bool, error) {
 	code, ok := h.st.req.Modules[moduleName]
 	if !ok && h.st.req.EchoModule != "" {
@@ -134,6 +161,17 @@ func (e vmExec) LoadSingleton(ident, module string) (vmValue.Value, bool, error)
 }
 func (e vmExec) Free() error { return nil }
 func (e vmExec) GetBuiltinImport(m, i string) (vmValue.Value, bool) {
+	if m == "hosta" || m == "hostb" {
+		switch i {
+		case "tag":
+			return *vmValue.NewValueBuiltinFunction(func(executor vmValue.Executor, cancelCtx *context.Context, span herrors.Span, args ...vmValue.Value) (*vmValue.Value, *vmValue.VmInterrupt) {
+				return vmValue.NewValueString(m), nil
+			}), true
+		case "num":
+			return *vmValue.NewValueInt(hostNum(m)), true
+		}
+		return nil, false
+	}
 	return e.inner.GetBuiltinImport(m, i)
 }
 func (e vmExec) ResolveModuleCode(m string) (string, bool, error) {
@@ -167,6 +205,17 @@ type treeExec struct {
 }
 
 func (e treeExec) GetBuiltinImport(m, i string) (treeValue.Value, bool) {
+	if m == "hosta" || m == "hostb" {
+		switch i {
+		case "tag":
+			return *treeValue.NewValueBuiltinFunction(func(executor treeValue.Executor, cancelCtx *context.Context, span herrors.Span, args ...treeValue.Value) (*treeValue.Value, *treeValue.Interrupt) {
+				return treeValue.NewValueString(m), nil
+			}), true
+		case "num":
+			return *treeValue.NewValueInt(hostNum(m)), true
+		}
+		return nil, false
+	}
 	return e.inner.GetBuiltinImport(m, i)
 }
 func (e treeExec) ResolveModuleCode(m string) (string, bool, error) {
